@@ -9,6 +9,7 @@ EXPLANATION = ("C10: structural conditions for terminating teardown: no lock re-
                "(close/stop/fini slots), teardown ordering in pipe_reap / sock_shutdown, handle validity guards."
                " Also: references taken with find/hold/create are released or consumed on every path and never released before they were taken (R1); close functions examine every parked operation on every path (R5); a conditional wake counts only if its guard is established for the waiter (R9).")
 EXPLANATION += " Round 3: the wake that lets a closer go is the releasing thread's last touch of what the closer finalizes (R7); a refused hold is not followed by a release (R1); an unlinked waiter is not dropped (R10); nothing is parked after close unless a late drain or a closed test covers it (R11)."
+EXPLANATION += " Round 8: a function that walks a counted array and releases its elements ends the object's life or sets the count (R17)."
 EXPLANATION += ' Round 6: the cancel mark of an operation stays until it completes (R14 = C02.A14); the lost-wake-up rule no longer exempts ws_stop (the exemption hid a genuine hang).'
 
 INLINE = ("nni_aio_finish_sync", "nni_aio_completions_run", "nni_task_exec")
@@ -1459,6 +1460,93 @@ def rule_closeall(ctx):
         raise AnalysisBroken("only %d parked-aio fields in close functions" % n)
 
 
+# ---------------------------------------------------------------------------
+# R17: what a close releases, it releases once
+
+
+def rule_release_once(ctx):
+    r = ctx.rule("C10.R17", "T2", "what a close releases it releases once: a function that walks a counted array of an object "
+                 "(for (i = 0; i < o->cnt; i++) release(o->arr[i])) either ends the object's life (it frees the object or the "
+                 "array, or is the object's finalizer) or sets the count before it returns -- close and stop entry points run "
+                 "the same function more than once (nng_*_close, then nng_*_stop), and a second walk releases descriptors / "
+                 "blocks that by then belong to somebody else", floor=3)
+    r.own_opinion = True
+    import re
+    REL = re.compile(r"(close|free|fini|rele|destroy|reap)")
+    prog = ctx.prog
+    finalizers = set()
+    for slot, lst in prog.slots().items():
+        if re.search(r"(fini|free|destroy|reap)", slot.split(".")[-1]):
+            finalizers |= {name for name, g, fl in lst}
+    for f in prog.functions:       # finalizers installed at run time: x->ops.sl_free = F, nni_refcnt_init(.., F), reap lists
+        if f.cfg_failed:
+            continue
+        for t in f.assigns():
+            rr = f.expand(t.node["rhs"])
+            while rr is not None and rr.get("k") in ("un", "cast") and rr.get("op", "(cast)") in ("&", "(cast)", "()"):
+                rr = rr.get("e")
+            fld = last_field(f.deref(t.node["lhs"])) or ""
+            if rr is not None and rr.get("k") == "fnref" and re.search(r"(fini|free|destroy|reap)", fld.split(".")[-1]):
+                finalizers.add(rr["n"])
+    n = 0
+    seen_inst = set()
+    for f in prog.functions:
+        if f.cfg_failed or f.normalized:
+            continue
+        for s in f.calls():
+            fn = s.node.get("fn") or ""
+            if not REL.search(fn):
+                continue
+            for a in s.node["args"]:
+                a = f.expand(a)
+                for m in walk(a or {}):
+                    if not (m.get("k") == "idx" and m["b"].get("k") == "mem" and m["i"].get("k") == "var"):
+                        continue
+                    arr, iv = m["b"], m["i"]["n"]
+                    for b in f.blocks.values():
+                        c = f.cond(b.id)
+                        if c is None or c.get("k") != "bin" or c["op"] not in ("<", "!=", ">", "<=") or len(b.succs) != 2:
+                            continue
+                        lo, hi = c["lhs"], c["rhs"]
+                        if c["op"] == ">":
+                            lo, hi = hi, lo
+                        if not (lo.get("k") == "var" and lo["n"] == iv and hi.get("k") == "mem" and hi.get("rec") == arr.get("rec")):
+                            continue
+                        if (s.b, s.i) not in f.reach((b.succs[0], 0)) if b.succs[0] is not None else True:
+                            continue
+                        key = (f.name, f.file, hi["f"], arr["f"])
+                        if key in seen_inst:
+                            continue
+                        seen_inst.add(key)
+                        n += 1
+                        what = "%s: %s over %s[0 .. %s)" % (f.name, fn, show(arr), show(hi))
+                        base = arr
+                        while base.get("k") == "mem":
+                            base = base["b"]
+                        bn = base.get("n")
+                        frees = [k for k in f.calls(("nni_free", "nni_free_struct")) if any(
+                            (x.get("k") == "var" and x.get("n") == bn) or (x.get("k") == "mem" and x["f"] == arr["f"])
+                            for x in walk(f.expand(k.node["args"][0]) or {}))]
+                        if frees:
+                            r.ob(f, what + ": the object / the array is freed here")
+                            continue
+                        if f.name in finalizers or re.search(r"_(fini|free|destroy|reap)$", f.name):
+                            r.ob(f, what + ": the object's finalizer")
+                            continue
+                        sets = {(t.b, t.i) for t in f.assigns() if any(
+                            x.get("k") == "mem" and x["f"] == hi["f"] and x.get("rec") == hi.get("rec") for x in [f.expand(t.node["lhs"])])}
+                        out = b.succs[1]
+                        if sets and out is not None and G.must_pass(f, (out, 0), sets) is None:
+                            r.ob(f, what + ": the count is set before the function returns")
+                        else:
+                            ctx.fail(r, f, "%s released, %s left standing" % (arr["f"], hi["f"]), s.line,
+                                     "%s releases %s[i] for i below %s (line %s) and returns with the count unchanged; it does "
+                                     "not end the object's life, so the next call (close, then stop) releases the same elements "
+                                     "again" % (f.name, show(arr), show(hi), s.line))
+    if n < 3:
+        raise AnalysisBroken("only %d release loops over a counted array found" % n)
+
+
 def run(ctx):   # noqa: F811
     _run0(ctx)
     ctx.guard(rule_refs)
@@ -1472,6 +1560,7 @@ def run(ctx):   # noqa: F811
     ctx.guard(rule_wakeups)
     ctx.guard(rule_drains_all)
     ctx.guard(rule_nego_release)
+    ctx.guard(rule_release_once)
     from . import c02
     ctx.guard(c02.rule_a7)
     for rr in ctx.rules:
